@@ -238,3 +238,39 @@ def c04_structure_inverse(f, replay):
     toks = toks[sl.get("openStart", 0):len(toks) - sl.get("openEnd", 0)]
     ins = st.get("insert", 0)
     return not (_only_wrappers(toks[:ins]) and _only_wrappers(toks[ins:]))
+
+
+def _schema_of(replay):
+    from . import schemas
+    if replay.get("schema") == "random":
+        from prosemirror.model import Schema
+        spec = replay["schema_spec"]
+        return Schema({"nodes": {k: dict(v) for k, v in spec["nodes"].items()}, "marks": {k: dict(v) for k, v in (spec.get("marks") or {}).items()}})
+    return schemas.by_name(replay["schema"]).schema
+
+
+def c04_nontransitive_join(f, replay):
+    """C04 open finding: `compatible_content` (the test behind check_join) is symmetric but not transitive.  A replace
+    step whose slice is open on both sides can merge a from-side ancestor A with a to-side ancestor B *through* an open
+    slice node C (A~C and C~B were checked); the inverse has to split that node again and checks A~B directly, which can
+    fail ("Cannot join B onto A") although the forward step applied.  Upstream algorithm.  Class: a replace step, slice
+    open on both sides, the inverse fails with a join error, and at some depth below the shared depth of the range the
+    from-side and to-side ancestors in the original document have types that are not compatible_content."""
+    st = replay.get("step") or {}
+    if st.get("stepType") != "replace":
+        return False
+    sl = st.get("slice") or {}
+    if not sl.get("openStart") or not sl.get("openEnd"):
+        return False
+    if "join" not in str(replay.get("detail", "")):
+        return False
+    from prosemirror.model import Node
+    schema = _schema_of(replay)
+    doc = Node.from_json(schema, replay.get("culprit_doc") or replay["doc"])
+    rf, rt = doc.resolve(st["from"]), doc.resolve(st["to"])
+    shared = rf.shared_depth(st["to"])
+    for d in range(shared + 1, min(rf.depth, rt.depth) + 1):
+        a, b = rf.node(d).type, rt.node(d).type
+        if not a.compatible_content(b):
+            return True
+    return False
